@@ -60,6 +60,20 @@ def J(test, checks=None, shards=1, race=False, env=None, procs=None, timeout=900
 
 
 PROPS = {
+    "C08": dict(
+        level="exploration",
+        rule="bounded-exhaustive: all 46656 orders of length 6 over {parent becomes ready, Refilter(equal), Refilter(new), parent event, parent cache change, subscribe} x 12 variants (immediate/deferred x subscription/clone x node depth 1..3), the first list gated so that 'parent becomes ready' is a step; after every step Ready() of every node must be closed iff the readiness model says so, no event may precede Ready, the listing taken at the instant Ready is observed must equal the filtered parent content, caches/mirrors must match the reference (quick: every 40th order); plus rapid orders fired back-to-back under schedule perturbation incl. failing first lists (nothing ever ready, everything done). Non-trivial = the order has a Refilter before and after parent readiness, or a parent event/change after parent readiness (random: or a failing first list); distinct = (variant, order).",
+        assumptions=["'Ready() not closed' is asserted at arbitrary instants (safe: it can only flip one way); 'Ready() closed' is awaited with a wedge bound"],
+        quick=[J("TestC08_Enum", shards=8, env={"VERIF_ENUM_STRIDE": "40"}), J("TestC08_Racy", checks=700, shards=4, procs=[2, 4, 8, 16])],
+        thorough=[J("TestC08_Enum", shards=16, timeout=2400), J("TestC08_Racy", checks=15000, shards=8, procs=[1, 2, 4, 16], timeout=1800)],
+    ),
+    "C07": dict(
+        level="exploration",
+        rule="bounded-exhaustive: all 256 parent contents over 4 keys x {absent, x=1, x=2, unlabeled} x all 512 ordered triples (f1,f2,f3) of an 8-filter family, run as chains f1->f2->f3->f1 of Refilter calls on a real filtered subscription between double-marker barriers, each Refilter checked for the exact multiset of Create/Delete events, identity of retained objects, empty delta for equal filters, and restoration of the view under f1; plus rapid chains on larger universes, deferred and immediate nodes and nodes below a filtered clone with parent traffic in between. Non-trivial = some Refilter of the triple both removes and adds an object, or is to an equal filter with a non-empty cache; distinct = (content, f1, f2, f3) / hash of history.",
+        assumptions=["events are collected between two double-marker barriers; no parent event is in flight during a checked Refilter (the property's premise)"],
+        quick=[J("TestC07_Enum", shards=16), J("TestC07_Random", checks=600, shards=2)],
+        thorough=[J("TestC07_Enum", shards=16), J("TestC07_Random", checks=15000, shards=8, timeout=1800)],
+    ),
     "C06": dict(
         level="exploration",
         rule="rapid state machines over a real controller fed by the fake API server and a generated tree (depth <= 3) mixing Subscribe/SubscribeWithFilter/SubscribeForFilter/Clone/CloneWithFilter/CloneForFilter: operations put/del (labels move objects in and out of filters), attach, Refilter over a 10-filter family (equal, overlapping, disjoint, accept-all, accept-none, non-comparable FN), lost watch events followed by gated relists. Quiet mode: double-marker barrier after every operation, then every live node's cache must equal the conjunction of the reference predicates on its path applied to the controller's view, its strict mirror must equal its cache, readiness must match the readiness model. Racy mode: server traffic and Refilter scripts run concurrently under logger-driven schedule perturbation, oracles at a final barrier. Non-trivial = tree with a filtered node below a filtered node, a Refilter on a ready node and an object that crossed a filter boundary by update; distinct = hash of the operation history.",
